@@ -959,6 +959,26 @@ mod verif_battery_c02_query {
 }
 '''
 
+C04_ORDER = r'''
+#[cfg(test)]
+mod verif_battery_c04_order {
+    use super::*;
+    #[test]
+    fn c04_canonical_headers_are_ordered_by_name() {
+        // names where one is a prefix of another and the next character sorts below ':'
+        let mut headers = hyper::HeaderMap::new();
+        for (n, v) in [("accept-encoding", "gzip"), ("accept", "*/*"), ("x-a", "1"), ("x-a-b", "2"), ("x-a.c", "3"), ("b", "4")] {
+            headers.insert(hyper::header::HeaderName::from_static(n), hyper::header::HeaderValue::from_static(v));
+        }
+        let got = headers_to_canonicalized_string(&headers);
+        let mut names: Vec<&str> = vec!["accept-encoding", "accept", "x-a", "x-a-b", "x-a.c", "b"];
+        names.sort();
+        let want: String = names.iter().map(|n| format!("{}:{}\n", n, headers.get(*n).unwrap().to_str().unwrap())).collect();
+        assert_eq!(want, got, "the canonical header block is not in the order of the sorted header names");
+    }
+}
+'''
+
 C02_RULES = r'''
 #[cfg(test)]
 mod verif_battery_c02_rules {
@@ -988,13 +1008,67 @@ mod verif_battery_c02_rules {
         }
         assert_eq!(0, denied, "a caller granted `narrow` was denied in {} of 64 rule-set builds (a privilege it does not hold matched first)", denied);
     }
+    #[test]
+    fn c02_a_dangling_name_in_a_list_does_not_hide_its_neighbours() {
+        let claims = |user: &str| crate::proxy::Claims { userId: 0, userName: user.to_string(), userGroups: vec![], processId: 1, processFullPath: std::path::PathBuf::from("/p"), clientIp: "0".to_string(), clientPort: 0,
+            processName: std::ffi::OsString::from("p"), processCmdLine: "p".to_string(), runAsElevated: true };
+        let id = |n: &str, u: &str| Identity { name: n.to_string(), userName: Some(u.to_string()), groupName: None, exePath: None, processName: None };
+        for order in [vec!["alice", "ghost", "bob"], vec!["ghost", "alice", "bob"], vec!["alice", "bob", "ghost"], vec!["bob", "ghost", "alice"]] {
+            for roles in [vec!["nowhere", "r"], vec!["r", "nowhere"]] {
+                let rules = AccessControlRules {
+                    roles: Some(vec![Role { name: "r".to_string(), privileges: vec!["ghost-privilege".to_string(), "p".to_string()] }]),
+                    privileges: Some(vec![Privilege { name: "p".to_string(), path: "/x".to_string(), queryParameters: None }]),
+                    identities: Some(vec![id("alice", "ua"), id("bob", "ub")]),
+                    roleAssignments: Some(roles.iter().map(|r| RoleAssignment { role: r.to_string(), identities: order.iter().map(|s| s.to_string()).collect() }).collect()),
+                };
+                let item = ComputedAuthorizationItem::from_authorization_item(AuthorizationItem { defaultAccess: "deny".to_string(), mode: "enforce".to_string(), rules: Some(rules), id: "x".to_string() });
+                let mut logger = crate::proxy::proxy_connection::ConnectionLogger::new(0, 0);
+                for u in ["ua", "ub"] {
+                    assert!(item.is_allowed(&mut logger, "/x".parse().unwrap(), claims(u)), "user {} is listed in the assignment {:?} (roles {:?}) but is denied", u, order, roles);
+                }
+            }
+        }
+    }
+}
+'''
+
+
+# C13 at loop level: the key-keeper task survives every sequence of status documents (scaffolding of the C12 loop battery)
+C13_KEYSTEP = C12_LOOP[:C12_LOOP.index("    #[tokio::test")].replace("verif_battery_c12_loop", "verif_battery_c13_keystep").replace("verif_c12_", "verif_c13k_") + r'''
+    #[tokio::test(flavor = "multi_thread", worker_threads = 2)]
+    async fn c13_key_keeper_task_survives_every_status_sequence() {
+        let root = std::env::temp_dir().join(format!("verif_c13k_{}", std::process::id()));
+        let _ = std::fs::remove_dir_all(&root);
+        std::fs::create_dir_all(&root).unwrap();
+        let token = CancellationToken::new();
+        let script = Arc::new(Mutex::new(Script { status_body: status_doc(None), key_body: key_doc(G1, K1), attest_status: 200 }));
+        let port = start_host(script.clone(), token.clone()).await;
+        let kk = keeper(port, &root, token.clone());
+        let task = tokio::spawn({ let kk = kk.clone(); async move { kk.poll_secure_channel_status().await } });
+        // latch with a host that names no key; then the host names the key; names another; names none again; answers nonsense
+        let steps = vec![
+            Script { status_body: status_doc(None), key_body: key_doc(G1, K1), attest_status: 200 },
+            Script { status_body: status_doc(Some(G1)), key_body: key_doc(G1, K1), attest_status: 200 },
+            Script { status_body: status_doc(Some(G2)), key_body: key_doc(G2, K2), attest_status: 200 },
+            Script { status_body: status_doc(None), key_body: key_doc(G1, K1), attest_status: 503 },
+            Script { status_body: "{\"not\": \"a status\"}".to_string(), key_body: "nonsense".to_string(), attest_status: 500 },
+            Script { status_body: status_doc(None), key_body: key_doc(G2, K2), attest_status: 200 },
+        ];
+        for (i, s) in steps.into_iter().enumerate() {
+            *script.lock().unwrap() = s;
+            tokio::time::sleep(Duration::from_millis(300)).await;
+            assert!(!task.is_finished(), "the key-keeper task ended (panicked) during step {} of the status sequence", i);
+        }
+        token.cancel();
+        let _ = std::fs::remove_dir_all(&root);
+    }
 }
 '''
 
 
 BATTERIES = {
     "C02": [("azure-proxy-agent", [("proxy_agent/src/common/hyper_client.rs", C02_QUERY), ("proxy_agent/src/proxy/authorization_rules.rs", C02_RULES)], "verif_battery_c02", True)],
-    "C04": [("azure-proxy-agent", [("proxy_agent/src/common/helpers.rs", __import__("p_c04").MAC_TEST), ("proxy_agent/src/common/hyper_client.rs", C02_QUERY.replace("verif_battery_c02_query", "verif_battery_c04_query").replace("fn c02_", "fn c04_"))], "verif_battery_c04", True)],
+    "C04": [("azure-proxy-agent", [("proxy_agent/src/common/helpers.rs", __import__("p_c04").MAC_TEST), ("proxy_agent/src/common/hyper_client.rs", C02_QUERY.replace("verif_battery_c02_query", "verif_battery_c04_query").replace("fn c02_", "fn c04_") + C04_ORDER)], "verif_battery_c04", True)],
     "C08": [("proxy_agent_shared", [("proxy_agent_shared/src/misc_helpers.rs", C08_SHARED)], "verif_battery_c08_file", False),
             ("azure-proxy-agent", [("proxy_agent/src/key_keeper.rs", C08_AGENT + C08_LOOP)], "verif_battery_c08_key", True)],
     "C09": [("azure-proxy-agent", [("proxy_agent/src/key_keeper/key.rs", C09_KEY), ("proxy_agent/src/shared_state/key_keeper_wrapper.rs", C09_WRAPPER)], "verif_battery_c09", True)],
